@@ -223,6 +223,10 @@ def clenshaw_qbfs(cs, usq, alphas=None):
     M = len(bs)-1
     prefix = 2 - 4 * x
     alphas[M] = bs[M]
+    if M == 0:
+        # a single term: S = b0 * P0 with P0 = 2, there is no alpha_1
+        return (x * (1 - x)) * (2 * alphas[0])
+
     alphas[M-1] = bs[M-1] + prefix * alphas[M]
     for i in range(M-2, -1, -1):
         alphas[i] = bs[i] + prefix * alphas[i+1] - alphas[i+2]
@@ -315,6 +319,10 @@ def compute_z_zprime_Qbfs(coefs, u, usq):
     """
     # clenshaw does its own u^2
     alphas = clenshaw_qbfs_der(coefs, usq, j=1)
+    if alphas.shape[1] == 1:
+        # a single term has no alpha_1: pad a zero one so the sums below hold
+        alphas = np.concatenate([alphas, np.zeros_like(alphas)], axis=1)
+
     S = 2 * (alphas[0][0] + alphas[0][1])
     # Sprime should be two times the alphas, just like S, but as a performance
     # optimization, S = sum cn Qn u^2
